@@ -42,7 +42,10 @@ func init() {
 	})
 }
 
-type doneFlag struct{ v bool; err error }
+type doneFlag struct {
+	v   bool
+	err error
+}
 
 //go:norace
 func (f *doneFlag) set(err error) { f.v, f.err = true, err }
